@@ -172,8 +172,11 @@ class ModelRegistry:
 
         replaces = []
         replaces_ids = set()
+        # Groups are sets: merge their members in registration order so that the result (fields order, name)
+        # does not depend on hash values
+        registration_order = {model.index: i for i, model in enumerate(self.models)}
         for group in groups:
-            model_meta = self._merge(generator, *group)
+            model_meta = self._merge(generator, *sorted(group, key=lambda m: registration_order[m.index]))
             generator.optimize_type(model_meta)
             replaces_ids.add(model_meta.index)
             replaces.append((model_meta, group))
